@@ -258,7 +258,8 @@ class Equals(ParametrizedDependentType):
     keyable_type = True
 
     def default_bound(self, *parameters):
-        return type(parameters[0])
+        types = {type(p) for p in parameters}
+        return types.pop() if len(types) == 1 else object
 
     def check(self, value):
         return value in self.parameters
